@@ -1,12 +1,16 @@
 package c05
 
 import (
+	"context"
 	"fmt"
+	"io"
+	"log/slog"
 	"testing"
 	"time"
 
 	"pgregory.net/rapid"
 
+	"github.com/form3tech-oss/f1/v2/internal/ui"
 	f1testing "github.com/form3tech-oss/f1/v2/pkg/f1/testing"
 	"github.com/form3tech-oss/f1/v2/verifharness/vlib"
 )
@@ -22,7 +26,7 @@ import (
 //
 // On a tree where Stop waits for the runner the parked dispatch merely delays Stop by the gate's
 // timeout and nothing else happens.
-func runLateTick(mode string, conc int, durMs int, dir string) (returned bool, elapsed time.Duration, bothGates bool, err error) {
+func runLateTick(mode string, conc int, durMs int, dir string, byCancel bool) (returned bool, elapsed time.Duration, bothGates bool, writesAfter int64, err error) {
 	ga := vlib.NewGate("raterun.before_dispatch", 1, 400*time.Millisecond)
 	gb := vlib.NewGate("result.nested_read", 1, 3*time.Second)
 	remove := vlib.InstallGates(nil, ga, gb)
@@ -51,6 +55,19 @@ func runLateTick(mode string, conc int, durMs int, dir string) (returned bool, e
 	spec.Opts.Concurrency = conc
 	spec.Opts.MaxDuration = time.Duration(durMs) * time.Millisecond
 	spec.Opts.IgnoreDropped = true
+	out := &sink{}
+	spec.Output = ui.NewOutput(slog.New(slog.NewTextHandler(out, nil)), ui.NewPrinter(io.Discard, io.Discard), false, false)
+	if byCancel {
+		// the run is ended by cancellation at the same instant instead of by max-duration
+		ctx, cancel := context.WithCancel(context.Background())
+		defer cancel()
+		spec.Ctx = ctx
+		spec.Opts.MaxDuration = 10 * time.Second
+		go func() {
+			time.Sleep(time.Duration(durMs) * time.Millisecond)
+			cancel()
+		}()
+	}
 	done := make(chan error, 1)
 	start := time.Now()
 	go func() {
@@ -73,9 +90,15 @@ func runLateTick(mode string, conc int, durMs int, dir string) (returned bool, e
 	default:
 	}
 	if returned {
+		// nothing of the run may report progress once Do has returned
+		at := out.writes.Load()
+		ga.Open()
+		time.Sleep(150 * time.Millisecond)
+		writesAfter = out.writes.Load() - at
+		gb.Open()
 		<-orchestratorDone
 	}
-	return returned, elapsed, bothGates, err
+	return returned, elapsed, bothGates, writesAfter, err
 }
 
 func TestProp_ScriptedLateProgressTick(t *testing.T) {
@@ -84,7 +107,8 @@ func TestProp_ScriptedLateProgressTick(t *testing.T) {
 		mode := rapid.SampledFrom([]string{"users", "constant"}).Draw(rt, "mode")
 		conc := rapid.IntRange(1, 4).Draw(rt, "concurrency")
 		durMs := rapid.IntRange(1030, 1150).Draw(rt, "durationMs")
-		returned, elapsed, both, err := runLateTick(mode, conc, durMs, dir)
+		byCancel := rapid.Bool().Draw(rt, "endedByCancel")
+		returned, elapsed, both, writesAfter, err := runLateTick(mode, conc, durMs, dir, byCancel)
 		if err != nil {
 			rt.Fatalf("VERIF-INFRA: %v", err)
 		}
@@ -92,9 +116,16 @@ func TestProp_ScriptedLateProgressTick(t *testing.T) {
 		if both {
 			cls = append(cls, "both-gates-reached")
 		}
-		stats.Case("scripted-late-tick", fmt.Sprint(mode, conc, durMs), both, cls, func() any {
+		if byCancel {
+			cls = append(cls, "ended-by-cancel")
+		}
+		stats.Case("scripted-late-tick", fmt.Sprint(mode, conc, durMs, byCancel), both || byCancel, cls, func() any {
 			return map[string]any{"script": "progress tick parked before dispatch while the run stops", "mode": mode, "concurrency": conc, "max_duration_ms": durMs, "elapsed_ms": elapsed.Milliseconds()}
 		})
+		if returned && writesAfter != 0 {
+			rt.Fatalf("VERIF-VIOLATION C05: %s c=%d run ended after %dms (by cancel: %v) while a progress tick was about to be dispatched: %d writes to the run's output after Do had returned",
+				mode, conc, durMs, byCancel, writesAfter)
+		}
 		if !returned {
 			rt.Fatalf("VERIF-VIOLATION C05: %s c=%d max-duration=%dms: a progress tick due just before the stop was dispatched while the final views held the result's read lock; Do had not returned after %s",
 				mode, conc, durMs, elapsed.Round(time.Millisecond))
@@ -103,7 +134,7 @@ func TestProp_ScriptedLateProgressTick(t *testing.T) {
 }
 
 func TestRegress(t *testing.T) {
-	returned, elapsed, _, err := runLateTick("users", 2, 1050, t.TempDir())
+	returned, elapsed, _, _, err := runLateTick("users", 2, 1050, t.TempDir(), false)
 	if err != nil {
 		t.Fatalf("VERIF-INFRA: %v", err)
 	}
